@@ -16,6 +16,9 @@ def gherkin_node(prog, ty, name, tags, extra=None):
     if not isinstance(fl, list) or 'tags' not in fl:
         raise Inconclusive('%s has no tags field' % ty)
     fields = {(None, fl.index('tags')): Obj('vec', items=tuple(Obj('symstr', name=t) for t in tags), ty='Vec<String>')}
+    if ty == 'gherkin::Scenario' and 'examples' in fl:
+        # scenarios as the runner sees them: not an outline unless the harness says so
+        fields[(None, fl.index('examples'))] = Obj('vec', items=(), ty='Vec<gherkin::Examples>')
     for k, v in (extra or {}).items():
         fields[(None, fl.index(k))] = v
     return Adt(ty, fields, None, name)
